@@ -187,7 +187,8 @@ pub fn node_stream(seed: u64, histories: usize, cfg: Cfg) -> Sink {
                 sink.count(&format!("node.complete.{}", res.split(':').next().unwrap()));
                 Some(format!("complete {seq} {res}"))
             } else if r < 80 {
-                let p = rng.below(cfg.peers as usize) as u64;
+                let connected: Vec<u64> = view.conns.keys().copied().collect();
+                let p = if !connected.is_empty() && rng.chance(4, 5) { *rng.pick(&connected) } else { rng.below(cfg.peers as usize) as u64 };
                 let mode = rng.below(10);
                 let (h, d, b) = if mode < 7 {
                     let h = keys_list(&mut rng, &cfg, 2);
